@@ -373,7 +373,7 @@ class Gen:
                 if kind == 'prim':
                     conns.append([None, fix_late(self.expr(usable, implied, pw), late_names, nets)])
                 else:
-                    conns.append([None, conn_expr(pw, False)])
+                    conns.append([None, conn_expr(pw, True)])      # now and then an empty position: "M m(a, , b);"
         prm = self.params(0.3 if kind != 'mod' else 0.1)
         return {'k': 'inst', 'mod': t['name'], 'name': name, 'params': prm,
                 'pstyle': 'defparam' if (prm and r.random() < 0.3) else 'hash', 'attrs': self.attrs(0.2),
